@@ -78,6 +78,14 @@ Added after independent mutation testing found a gap (both caught at seed 1 by `
   right after a complete all-empty fragmented message), the `frames` part draws empty payloads more often, and the
   new deterministic part `grid` runs EVERY sequence of <=3 (thorough: <=4) frames over a 9-frame alphabet
   (text/binary/continuation x final/non-final x empty/non-empty, ping) in both roles against the reference verdict.
+Second round:
+  M12 _receive_frame: the max_message_size branch sends close(1009) and returns WITHOUT _abort()
+                                                                      -> C15.delivered_after_violation ("evil" delivered)
+  Plain filler payloads hide this (the unread payload is parsed as frames and soon hits a reserved bit).  The
+  oversized frame of too_big_single / too_big_fragments is now a `trojan_frame`: the bytes after its length field
+  -- masking key and masked payload -- are themselves well-formed frames (key = the unmasked ping 89 02 6d 6b,
+  then [final empty continuation if a message is open] [text "evil"] [close]), label
+  `oversized_frame_embeds_valid_frames`; a third of too_big_single cases keep the plain filler.
 """
 import struct
 
@@ -158,7 +166,9 @@ violation_s = st.one_of(
     st.tuples(st.just("bad_utf8"), st.sampled_from(sorted(BAD_UTF8)), st.sampled_from(["single", "split", "compressed", "split_compressed"])),
     st.tuples(st.just("unknown_opcode"), st.sampled_from([3, 4, 5, 6, 7, 0xB, 0xC, 0xD, 0xE, 0xF]), st.booleans(), small),
     st.tuples(st.just("unknown_opcode"), st.sampled_from([3, 4, 5, 6, 7, 0xB, 0xC, 0xD, 0xE, 0xF]), st.booleans(), small),
-    st.tuples(st.just("too_big_single"), st.sampled_from([1, 2, 1000]), st.booleans()),
+    # 4th field: the oversized payload embeds well-formed frames (see trojan_frame) / is plain filler
+    st.tuples(st.just("too_big_single"), st.sampled_from([1, 2, 1000]), st.booleans(), st.sampled_from([True, True, False])),
+    st.tuples(st.just("too_big_single"), st.sampled_from([1, 2, 1000]), st.booleans(), st.sampled_from([True, True, False])),
     st.tuples(st.just("too_big_fragments"), st.sampled_from([1, 2, 1000]), st.lists(st.integers(0, 1000), min_size=1, max_size=3), st.booleans()),
     st.tuples(st.just("too_big_inflated"), st.sampled_from([1, 2, 257, 258, 259, 1000, 1 << 20]), st.booleans(), st.lists(st.integers(0, 1000), max_size=2)),
     st.tuples(st.just("too_big_inflated"), st.sampled_from([1, 2, 257, 258, 259, 1000, 1 << 20]), st.booleans(), st.lists(st.integers(0, 1000), max_size=2)),
@@ -235,6 +245,45 @@ def head_frames(enc, case):
     """The non-final frames that open the message the violation sits in."""
     head, nconts = head_of(case)
     return enc.frame(wsref.OP_BINARY, head, fin=False) + b"".join(enc.frame(wsref.OP_CONT, b"", fin=False) for _ in range(nconts))
+
+
+def trojan_frame(enc, opcode, fin, size, limit, in_progress):
+    """An oversized frame (`size` payload bytes, grown if needed) whose bytes on the wire AFTER the length field --
+    the masking key and the masked payload -- are themselves well-formed frames: [ping "mk" = the masking key]
+    [final empty continuation, when a message is in progress] [text "evil"] [close].  A receiver that announces
+    1009 but keeps parsing instead of aborting would deliver them, so "nothing derived from the violating
+    frame" is really put to the test.  -> (frame bytes, payload size)"""
+    evil = b"evil"[: max(1, min(limit, 4))]
+    if enc.role == "client":
+        key = wsref.encode_frame(wsref.OP_PING, b"mk")                     # 89 02 6d 6b: a 4-byte unmasked ping
+        emb = lambda op, pl=b"", **kw: wsref.encode_frame(op, pl, mask=b"\x00\x00\x00\x00", **kw)
+    else:
+        key = None
+        emb = lambda op, pl=b"", **kw: wsref.encode_frame(op, pl, **kw)
+    inner = (emb(wsref.OP_CONT, b"", fin=True) if in_progress else b"") + emb(wsref.OP_TEXT, evil) + emb(wsref.OP_CLOSE)
+    size = max(size, len(inner))
+    wire = inner + b"\x00" * (size - len(inner))
+    payload = wsref.apply_mask(key, wire) if key else wire                  # encode_frame masks it back into `wire`
+    return wsref.encode_frame(opcode, payload, fin=fin, mask=key), size
+
+
+def oversized_fragments(enc, opcode, total, cuts, limit, already, continuing):
+    """Frames of a message of `total` bytes split at `cuts` (permille); the fragment that crosses the limit is a
+    trojan_frame.  already = bytes the open message holds before these frames; continuing = first frame is a continuation."""
+    body = b"z" * total
+    frags = wsref.split_at(body, sorted(len(body) * c // 1000 for c in cuts))
+    out, cum, done = bytearray(), already, False
+    for i, fr in enumerate(frags):
+        op = wsref.OP_CONT if (continuing or i > 0) else opcode
+        fin = i == len(frags) - 1
+        if not done and cum + len(fr) > limit:
+            frame, _ = trojan_frame(enc, op, fin, len(fr), limit, in_progress=(continuing or i > 0))
+            out += frame
+            done = True
+        else:
+            out += enc.frame(op, fr, fin=fin)
+        cum += len(fr)
+    return bytes(out)
 
 
 def build_violation(enc, v, limit, deflate, inside, head=b"head!"):
@@ -324,20 +373,23 @@ def build_violation(enc, v, limit, deflate, inside, head=b"head!"):
         if not (op & 8) and not fin and not inside:
             info["kind_sig"] = "unknown_opcode_nonfinal_data"
     elif kind == "too_big_single":
-        _, extra, binary = v
+        extra, binary = v[1], v[2]
         n = limit + extra
-        data = f(wsref.OP_BINARY if binary else wsref.OP_TEXT, b"z" * n)
+        if len(v) > 3 and not v[3]:
+            data = f(wsref.OP_BINARY if binary else wsref.OP_TEXT, b"z" * n)
+        else:
+            data, _ = trojan_frame(enc, wsref.OP_BINARY if binary else wsref.OP_TEXT, True, n, limit, in_progress=inside)
+            labels.add("oversized_frame_embeds_valid_frames")
         info["size"] = True
     elif kind == "too_big_fragments":
         _, extra, cuts, binary = v
         n = limit + extra
         if inside:
             # the open message already holds len(head) bytes: the continuation brings it above the limit
-            body = b"z" * max(n - len(head), 1)
-            frags = wsref.split_at(body, sorted(len(body) * c // 1000 for c in cuts))
-            data = b"".join(f(wsref.OP_CONT, fr, fin=(i == len(frags) - 1)) for i, fr in enumerate(frags))
+            data = oversized_fragments(enc, wsref.OP_BINARY, max(n - len(head), 1), cuts, limit, len(head), True)
         else:
-            data, _ = enc.message(wsref.OP_BINARY if binary else wsref.OP_TEXT, b"z" * n, cuts=cuts)
+            data = oversized_fragments(enc, wsref.OP_BINARY if binary else wsref.OP_TEXT, n, cuts, limit, 0, False)
+        labels.add("oversized_frame_embeds_valid_frames")
         info["size"] = True
         info["self_inside"] = True
     elif kind == "too_big_inflated":
